@@ -568,8 +568,14 @@ class FileStoragePacker(FileStorageFormatter):
                         # record. There's a bug in ZEO blob support that causes
                         # duplicate data records.
                         rpos = self.gc.reachable.get(h.oid)
-                        is_dup = (
-                            rpos and self._read_data_header(rpos).tid == h.tid)
+                        is_dup = False
+                        if rpos:
+                            # (An undo of several transactions may leave
+                            # the object un-created in the end: that is
+                            # no duplicate, the file is not needed.)
+                            cur = self._read_data_header(rpos)
+                            is_dup = cur.tid == h.tid and (
+                                cur.plen or cur.back)
                         if not is_dup:
                             if h.oid not in self.gc.reachable:
                                 self.blob_removed.write(
